@@ -384,7 +384,7 @@ func (m *RTRErrorReport) Serialize() ([]byte, error) {
 func NewRTRErrorReport(errCode uint16, errPDU []byte, errMsg []byte) *RTRErrorReport {
 	pdu := &RTRErrorReport{Type: RTR_ERROR_REPORT, ErrorCode: errCode}
 	if errPDU != nil {
-		if errPDU[1] == RTR_ERROR_REPORT {
+		if len(errPDU) > 1 && errPDU[1] == RTR_ERROR_REPORT {
 			return nil
 		}
 		pdu.PDULen = uint32(len(errPDU))
